@@ -2,6 +2,7 @@
    interleaving model computes for a schedule, one line per returned operation, and the threads that
    panicked or the first event the model does not allow. *)
 From BC Require Import Base.Bytes Conc.Lin Conc.StoreLTS Conc.StoreLin.
+From BC Require Conc.RollLTS.
 From Coq Require Import String List.
 Export ListNotations.
 Open Scope string_scope.
@@ -40,3 +41,29 @@ Definition render_schedule (pinned : bool) (cap : nat) (es : list lev) : string 
   join nl (report (if pinned then rule_pinned else rule_fixed) (linit cap) es 0).
 Definition render_schedules (cases : list (bool * nat * list lev)) : string :=
   join (nl ++ "--" ++ nl) (List.map (fun '(p, c, es) => render_schedule p c es) cases).
+
+(* ---- the rollover model (Conc/RollLTS.v): the writer is rendered as thread 99 *)
+Definition show_ov (v : option nat) : string := match v with None => "none" | Some v => "some:" ++ show_N (N.of_nat v) end.
+
+Fixpoint report_roll (s : RollLTS.rst) (es : list RollLTS.rev) (i : nat) : list string :=
+  match es with
+  | [] => ["end"]
+  | e :: es' =>
+    match RollLTS.rstep true s e with
+    | None => ["stuck:" ++ show_N (N.of_nat i)]
+    | Some s' =>
+      let here := match e with
+                  | RollLTS.WReturn => ["R 99 ok"]
+                  | RollLTS.GReturn t => match RollLTS.rreaders s t with
+                                         | RollLTS.GDone _ v _ => ["R " ++ show_N (N.of_nat t) ++ " " ++ show_ov v]
+                                         | _ => []
+                                         end
+                  | RollLTS.GRead t => match RollLTS.rreaders s' t with RollLTS.GFailed => ["R " ++ show_N (N.of_nat t) ++ " panic"] | _ => [] end
+                  | _ => []
+                  end in
+      (here ++ report_roll s' es' (S i))%list
+    end
+  end.
+
+Definition render_rolls (cases : list (list RollLTS.rev)) : string :=
+  join (nl ++ "--" ++ nl) (List.map (fun es => join nl (report_roll RollLTS.rinit es 0)) cases).
